@@ -358,7 +358,8 @@ pub fn run_check<P: Prop>(prop: P, tier: Tier) -> ! {
                 a.sim_ns += r.ctx.sim_ns as u128;
                 a.log_events += r.ctx.log.n;
                 if i < recheck { a.hashes.insert(i, r.ctx.log.hash()); }
-                if i < 3 { let s = json!({"run_index": i, "run_seed": run_seed, "case": prop.sample(&case), "events": r.ctx.log.n, "violation": r.violation.as_ref().map(|v| v.class.clone())}); a.samples.insert(i, s); }
+                if i < 3 { let mut cs = prop.sample(&case); let txt = cs.to_string(); if txt.len() > 40_000 { cs = json!({"truncated_case_json_bytes": txt.len(), "head": txt.chars().take(6000).collect::<String>()}); }
+                    let s = json!({"run_index": i, "run_seed": run_seed, "case": cs, "events": r.ctx.log.n, "violation": r.violation.as_ref().map(|v| v.class.clone())}); a.samples.insert(i, s); }
                 if let Some(h) = r.harness_panic { a.harness_errors.push(format!("run {} (seed {}): {}", i, run_seed, h)); }
                 if let Some(v) = r.violation {
                     a.violating_runs += 1;
